@@ -2,7 +2,7 @@
     Proved: what [has_news_for] counts. Not yet proved here: that the head table always holds the
     maximum timestamp per author (checked against the real store by the correspondence runs),
     and the size-limited encoding. *)
-From ID Require Import Model.StoreOps Proofs.HeadsFacts.
+From ID Require Import Model.StoreOps Model.Heads Proofs.HeadsFacts Proofs.MigrateFacts.
 
 Theorem C13_has_news_counts : forall theirs ours,
   has_news theirs ours = N.of_nat (length (filter (is_news ours) theirs)).
@@ -13,5 +13,40 @@ Theorem C13_no_news_iff : forall theirs ours,
   forall a t, In (a, t) theirs -> exists t', head_lookup a ours = Some t' /\ t <= t'.
 Proof. exact no_news_iff. Qed.
 
+(** without a size limit every author is encoded (the encoded items are exactly the heads) *)
+Theorem C13_encode_nolimit_all : forall heads, heads_encode_items false heads None = newest_first heads.
+Proof. exact encode_nolimit_all. Qed.
+Theorem C13_encoded_items_are_the_heads : forall heads t a, In (t, a) (newest_first heads) <-> In (a, t) heads.
+Proof. exact newest_first_In. Qed.
+
+(** under a limit (that admits at least the empty list) the encoding never exceeds it, keeps a
+    newest-first prefix, and the prefix is maximal *)
+Theorem C13_encode_limit : forall heads L,
+  items_size [] <= L ->
+  let sorted := newest_first heads in
+  let items := heads_encode_items false heads (Some L) in
+  items_size items <= L /\
+  exists k, items = firstn k sorted /\
+            match nth_error sorted k with Some nxt => L < items_size (items ++ [nxt]) | None => True end.
+Proof. exact encode_limit. Qed.
+
+(** a rebuilt head table holds the per-author maximum (shared with C18) *)
+Theorem C13_rebuilt_heads_are_maxima : forall T, t_latest T = [] -> t_records T <> [] ->
+  forall ns au,
+    head_ts (t_latest (migrate_latest T)) ns au =
+    match rows_of (t_records T) ns au with [] => None | rows => Some (max_list rows) end.
+Proof. exact migrate_heads_exact. Qed.
+
+(** sensitivity: re-keying the heads by timestamp (the pinned tree) loses an author *)
+Example C13_encode_distinct_ts_refuted :
+  let heads := [(2, 7); (3, 7)] in
+  heads_encode_items true heads None = [(7, 3)] /\ heads_encode_items false heads None = [(7, 3); (7, 2)].
+Proof. exact encode_distinct_ts_refuted. Qed.
+
 Print Assumptions C13_has_news_counts.
+Print Assumptions C13_encode_nolimit_all.
+Print Assumptions C13_encoded_items_are_the_heads.
+Print Assumptions C13_encode_limit.
+Print Assumptions C13_rebuilt_heads_are_maxima.
+Print Assumptions C13_encode_distinct_ts_refuted.
 Print Assumptions C13_no_news_iff.
